@@ -101,6 +101,9 @@ def check_C08(tier, seed):
     # connections that end after the client has moved: what was filed under either address goes
     for i in range(200 if quick else 1500):
         scripts.append(scen.lifecycle_migrated(r, len(scripts)))
+    # a close whose first datagrams are lost while the peer keeps sending: it has to be said again
+    for i in range(150 if quick else 1000):
+        scripts.append(scen.lifecycle_closelost(r, len(scripts)))
     mcs = [("MC_Lifecycle.tla", "MC_Lifecycle.cfg"),
            ("LifecyclePair.tla", "MC_LifecyclePair.cfg" if quick else "MC_LifecyclePair5.cfg")]
     res = generic("C08", tier, seed, mcs, scripts,
